@@ -160,7 +160,22 @@ struct World {
 		return s;
 	}
 
-	void push(const Ev& e) { if (events.size() < events.capacity()) events.push_back(e); ++nEvents; }
+	// the event list is bounded (it exists for messages and replay files); comparisons of what two instances ran
+	// use this running digest of all non-logger events instead, which never truncates
+	uint64_t projHash = 7;
+	uint64_t caseHash = 1234567;   // digest of the whole case, logger records and logger attachment excluded (differential runs)
+	void push(const Ev& e) {
+		if (events.size() < events.capacity()) events.push_back(e);
+		++nEvents;
+		if (e.kind != EV_LOG && !((e.kind == EV_API_BEGIN || e.kind == EV_API_END) && (e.code == OP_ATTACH || e.code == OP_DETACH))) {
+			caseHash = vh::mix(caseHash, (uint64_t(e.kind) << 48) | (uint64_t(e.inst) << 40) | (uint64_t(e.code) << 32) | (uint64_t(e.sid) << 24) | (uint64_t(e.inj) << 16) | (uint64_t(e.a) << 8) | e.b);
+			caseHash = vh::mix(caseHash, e.tag & cfg::TAGMASK);
+		}
+		if (e.kind != EV_LOG) {
+			projHash = vh::mix(projHash, (uint64_t(e.kind) << 40) | (uint64_t(e.code) << 32) | (uint64_t(e.sid) << 24) | (uint64_t(e.inj) << 16) | (uint64_t(e.a) << 8) | e.b);
+			projHash = vh::mix(projHash, e.tag & cfg::TAGMASK);
+		}
+	}
 
 	// ------------------------------------------------------------------
 	// API boundary
